@@ -40,6 +40,9 @@ import (
 //	                  takes up to 5 s to close a congested connection). A second Close is called N*20 ms
 //	                  after the first; once it has returned, SendSet fails and the collector receives
 //	                  nothing more
+//	template_after_tick  udp, the real refresh ticker at 1 s: a template is sent, a tick passes, a template
+//	                  with a new id is sent (and so on, 2+N%2 times), with data sets in between; every
+//	                  template is retransmitted after it was sent, everything on the wire is well-formed
 //	dtls_ticker       the real refresh ticker (1 s) over DTLS (harness pion server): within 2.6 s every
 //	                  template is retransmitted at least once, well-formed
 //	refresh_unbuildable  udp: a registered template holds an element whose declared type the library
@@ -84,6 +87,8 @@ func runExtra(c Extra) *ev.Failure {
 		return runCloseOverlapSlowClose(c)
 	case "cumulative_template_set":
 		return runCumulativeTemplates(c)
+	case "template_after_tick":
+		return runTemplateAfterTick(c)
 	case "refresh_after_outage":
 		// the pending socket error is a kernel matter: a miss is confirmed twice before it counts
 		var f *ev.Failure
@@ -643,6 +648,63 @@ func runRefreshAfterOutage(c Extra) *ev.Failure {
 // runCumulativeTemplates: an application that keeps one template set and appends to it: it sends
 // {T0}, then {T0, T1}, then {T0, T1, T2} (N odd: the new template first). Every template of every
 // set was sent: data for each of them is accepted, and a refresh round retransmits each of them.
+// runTemplateAfterTick: applications register templates as they meet new kinds of flows, also
+// long after the exporter was started, between two refresh rounds of the real ticker.
+func runTemplateAfterTick(c Extra) *ev.Failure {
+	peer, err := exph.NewPeer("udp", false)
+	if err != nil {
+		return nil
+	}
+	defer peer.Close()
+	ep, err := exporter.InitExportingProcess(exporter.ExporterInput{CollectorAddress: peer.Addr, CollectorProtocol: "udp", ObservationDomainID: 24, TempRefTimeout: 1})
+	if err != nil {
+		return ev.Failf("InitExportingProcess: %v", err)
+	}
+	defer ep.CloseConnToCollector()
+	n := 2 + c.N%2
+	for t := 0; t < n; t++ {
+		ts, _ := exph.TemplateSet(uint16(256+t), templates[t%len(templates)], t)
+		if _, err := ep.SendSet(ts); err != nil {
+			return ev.Failf("template %d, sent %d refresh intervals after the exporter was started: %v", 256+t, t, err)
+		}
+		ds, _ := exph.DataSet(uint16(256+t), templates[t%len(templates)], dataRecs(t, 1, t), 0)
+		if _, err := ep.SendSet(ds); err != nil {
+			return ev.Failf("data for template %d: %v", 256+t, err)
+		}
+		time.Sleep(1250 * time.Millisecond) // a tick of the real ticker passes
+	}
+	ep.CloseConnToCollector()
+	time.Sleep(20 * time.Millisecond)
+	all, _ := peer.WaitDatagrams(0, 0)
+	seen := map[uint16]int{}
+	for k, d := range all {
+		_, sets, err := ref.ParseMessage(d)
+		if err != nil || len(sets) != 1 {
+			return ev.Failf("datagram %d of the session is not a well-formed message with one set: %v", k, err)
+		}
+		if sets[0].ID != 2 {
+			continue
+		}
+		for body := sets[0].Body; len(body) >= 4; {
+			t, m, err := ref.ParseTemplateRecord(body)
+			if err != nil {
+				return ev.Failf("datagram %d: malformed template record: %v", k, err)
+			}
+			seen[t.ID]++
+			body = body[m:]
+		}
+	}
+	if len(all) < 2*n {
+		return nil // datagram loss: no verdict
+	}
+	for t := 0; t < n; t++ {
+		if seen[uint16(256+t)] < 2 && len(all) >= 2*n+n {
+			return ev.Failf("template %d was sent %d refresh intervals after the exporter was started and at least one interval (1 s) before the exporter was closed; it is on the wire %d time(s): it was never retransmitted (all templates seen: %v)", 256+t, t, seen[uint16(256+t)], seen)
+		}
+	}
+	return nil
+}
+
 func runCumulativeTemplates(c Extra) *ev.Failure {
 	peer, err := exph.NewPeer("udp", false)
 	if err != nil {
@@ -727,7 +789,7 @@ func runCumulativeTemplates(c Extra) *ev.Failure {
 }
 
 func extraCases(thorough bool) []Extra {
-	out := []Extra{{Kind: "refresh_after_outage"}, {Kind: "cumulative_template_set"}, {Kind: "cumulative_template_set", N: 1}, {Kind: "json_refresh"}, {Kind: "json_refresh", N: 1}, {Kind: "json_refresh", Ticker: true}, {Kind: "dtls_ticker"}, {Kind: "refresh_unbuildable"}, {Kind: "refresh_unbuildable", N: 1}}
+	out := []Extra{{Kind: "refresh_after_outage"}, {Kind: "cumulative_template_set"}, {Kind: "cumulative_template_set", N: 1}, {Kind: "template_after_tick"}, {Kind: "json_refresh"}, {Kind: "json_refresh", N: 1}, {Kind: "json_refresh", Ticker: true}, {Kind: "dtls_ticker"}, {Kind: "refresh_unbuildable"}, {Kind: "refresh_unbuildable", N: 1}}
 	n := 4
 	if thorough {
 		n = 20
